@@ -140,6 +140,9 @@ func runC01(c *vh.Ctx) {
 	for _, it := range items {
 		impl, stable := evalImpl(it.n, it.env.Env)
 		enc := vh.EncExpr(it.n)
+		if stable && vh.OrderSensitive(it.n, it.env.Env) {
+			stable = false // a record literal with two differently failing entries: result depends on map order (C14 finding)
+		}
 		if !stable {
 			unstable++
 			c.Dist("impl-nondeterministic")
